@@ -263,6 +263,10 @@ pub fn py_floor_div_i64_impl(a: i64, b: i64) -> i64 {
 pub fn py_mod_f64_impl(a: f64, b: f64) -> f64 {
     debug_assert!(b != 0.0);
     let r = a % b;
+    if r == 0.0 {
+        // Python: a zero remainder takes the sign of the divisor (`-6.0 % 3.0 == 0.0`, not `-0.0`).
+        return 0.0_f64.copysign(b);
+    }
     if (r > 0.0 && b < 0.0) || (r < 0.0 && b > 0.0) {
         r + b
     } else {
